@@ -121,13 +121,15 @@ def gen(rng, n, twin=None):
 
 def project(case, outs):
     """records with a tag in TAGS; of the state probes (tag 8): every PROBE_SAMPLE-th of each run, the
-    first one of each run whose Pacing timer (probe field 24) is armed, and the first probe of a
+    first one of each run whose Pacing timer (probe field 24) is armed, the first one of each run that shows
+    a timer armed in the past, and the first probe of a
     connection after each of its handle_timeout calls (the timer table right after the call)"""
     if outs == [[-999]]:
         return outs
     res = []
     k = 0
     paced_seen = False
+    overdue_seen = False
     after_ht = set()
     for r in outs:
         if not r:
@@ -141,16 +143,20 @@ def project(case, outs):
         if r[0] == 99:
             k = 0
             paced_seen = False
+            overdue_seen = False
             after_ht = set()
             res.append(r)
         elif r[0] == 8:
             k += 1
             armed = len(r) > 28 and r[4 + 24] != -1
             key = (r[2], r[3])
-            if k % PROBE_SAMPLE == 0 or (armed and not paced_seen) or key in after_ht:
+            # a timer armed in the past (it is due, a handle_timeout call at this instant is not spurious)
+            overdue = len(r) > 30 and any(0 <= r[4 + 18 + j] < r[1] for j in range(9))
+            if k % PROBE_SAMPLE == 0 or (armed and not paced_seen) or (overdue and not overdue_seen) or key in after_ht:
                 res.append(r)
             after_ht.discard(key)
             paced_seen = paced_seen or armed
+            overdue_seen = overdue_seen or overdue
         elif r[0] in TAGS or r[0] == 16:
             if r[0] == 7:
                 after_ht.add((r[2], r[3]))
